@@ -567,9 +567,11 @@ impl Exec {
             let ser = ex.cfg.serialize();
             t.rec("oti", &ser);
             // a replica that derived its own configuration must have derived this one
-            for (i, r) in ex.replicas.iter().enumerate() {
+            for r in ex.replicas.iter() {
                 if let Some(e) = &r.encoder {
-                    t.rec(&format!("replica{i}.config"), &e.get_config().serialize());
+                    if e.get_config() != ex.cfg {
+                        t.rec("replica.config-mismatch", &e.get_config().serialize());
+                    }
                 }
             }
         }
@@ -777,7 +779,27 @@ impl Exec {
                 Ok(())
             }
             Event::Burst { replica, r } => {
-                if *replica >= self.replicas.len() || self.replicas[*replica].encoder.is_none() {
+                if *replica >= self.replicas.len() {
+                    return Ok(());
+                }
+                if self.replicas[*replica].encoder.is_none() {
+                    if self.transcript.is_none() {
+                        return Ok(());
+                    }
+                    // transcript mode (C07): a replica built block by block emits the same list
+                    // through the per-block interface
+                    let ps = guarded(|| {
+                        let mut v = vec![];
+                        for b in &self.replicas[*replica].blocks {
+                            v.extend(b.source_packets());
+                            v.extend(b.repair_packets(0, *r));
+                        }
+                        v
+                    });
+                    match ps {
+                        Ok(v) => self.rec_packets("burst", &v),
+                        Err(p) => self.transcript.as_mut().unwrap().rec("burst.panic", panic_class(&p).as_bytes()),
+                    }
                     return Ok(());
                 }
                 let ps = match guarded(|| self.replicas[*replica].encoder.as_ref().unwrap().get_encoded_packets(*r)) {
